@@ -26,6 +26,8 @@ inductive Op
   | earlyStop (k : Key2)
   | deployReady (k : Key2)
   | editMax (k : Key2) (n : Int)
+  /-- the run object of a *completed* Trial is removed by someone else (TTL after finish, user clean-up) -/
+  | jobGone (k : Key2)
   | noop
   deriving Repr
 
@@ -102,6 +104,12 @@ def stepWorld (s : Sim) (op : Op) : World × String :=
     match findExp s.cur k with
     | none => (s.cur, "ok=0")
     | some _ => (updExp s.cur k (fun e => { e with maxT := some n, rv := e.rv + 1 }), "ok=1")
+  | .jobGone k =>
+    match findTrial s.cur k with
+    | none => (s.cur, "ok=0")
+    | some t =>
+      if tCompleted t && (findJob s.cur k).isSome then ({ s.cur with jobs := s.cur.jobs.filter (fun j => ¬ j.key = k) }, "ok=1")
+      else (s.cur, "ok=0")
   | .noop => (s.cur, "ok=1")
 
 def step (s : Sim) (op : Op) : Sim × String :=
